@@ -221,6 +221,15 @@ def step (d : DS) : List String → DS × String
     match k.toNat?, g.toNat?, pat? a b c with
     | some k, some g, some p => ({ d with its := aset d.its k (Iter.start d.m.toMem p g) }, "ok")
     | _, _, _ => (d, "bad-op")
+  -- tch g SLOT a b c1 c2 …  : graph g's triples_choices, SLOT ∈ {s,p,o} holds the list c1 c2 …, a b = the two other positions
+  | "tch" :: g :: sl :: a :: b :: cs =>
+    match g.toNat?, optNat? a, optNat? b, cs.mapM (fun w => w.toNat?) with
+    | some g, some a, some b, some cs =>
+      if sl = "s" then (d, showTriples (d.m.triplesChoices .s cs a b (some g)))
+      else if sl = "p" then (d, showTriples (d.m.triplesChoices .p cs a b (some g)))
+      else if sl = "o" then (d, showTriples (d.m.triplesChoices .o cs a b (some g)))
+      else (d, "bad-op")
+    | _, _, _, _ => (d, "bad-op")
   | ["gopen", k, g, a, b, c] =>
     match k.toNat?, g.toNat?, pat? a b c with
     | some k, some g, some p => ({ d with gens := aset d.gens k (NGen.new p (some g)) }, "ok")
